@@ -38,7 +38,18 @@ Theorem write_value_total_partial :
     write_value code_guards (sq_bound h) h [] x = Done tt.
 Proof.
   intros h x Hwf Hsf Hx.
-  exact (write_total_lemma h code_guards Hwf eq_refl eq_refl (or_intror Hsf) x Hx).
+  exact (write_total_lemma h code_guards Hwf eq_refl eq_refl (or_intror (or_introl Hsf)) x Hx).
+Qed.
+
+(* ... more generally when every struct is a record of immutable data (no list and
+   no dict below it through tuples and structs); missing: structs with a list or
+   dict field -- acyclic ones print fine, those reachable from themselves do not *)
+Theorem write_value_total_partial_plain_structs :
+  forall h x, wf_heap h = true -> structs_plain h = true -> x < size h ->
+    write_value code_guards (sq_bound h) h [] x = Done tt.
+Proof.
+  intros h x Hwf Hsp Hx.
+  exact (write_total_lemma h code_guards Hwf eq_refl eq_refl (or_intror (or_intror Hsp)) x Hx).
 Qed.
 
 (* ... and the full statement for the repair "Struct.String hands writeValue's path on" *)
@@ -97,6 +108,14 @@ Example premises_hold :
   compare code_guards 11 example_heap 10 EQL 0 0 = Fail /\
   hash 6 example_heap 2 = Fail /\
   json_emit code_guards 7 example_heap [] 0 = Fail.
+Proof. vm_compute. repeat split. Qed.
+
+Definition example_heap2 : heap :=
+  {| objs := [OInt 1; OTuple [0]; OStruct [(0, 0); (1, 1)]; OList [2; 3]; ODict [(KStr 0, 3); (KStr 1, 2)]];
+     cellv := [] |}.
+Example plain_struct_premises_hold :
+  wf_heap example_heap2 = true /\ structs_plain example_heap2 = true /\ struct_free example_heap2 = false /\
+  write_value code_guards (sq_bound example_heap2) example_heap2 [] 3 = Done tt.
 Proof. vm_compute. repeat split. Qed.
 
 Example arity_premises_hold :
